@@ -491,9 +491,10 @@ impl<'a> Elab<'a> {
             62..=71 if streams && !env.streams.is_empty() => {
                 let (s, sh) = env.streams[pick(l.x, env.streams.len())].clone();
                 let c = self.fresh("#c");
+                // the peer is resolved before the canon result exists
+                let peer = self.target(env, l.peer, l.out);
                 env.canons.push((c.clone(), sh));
                 self.feat.canons += 1;
-                let peer = self.target(env, l.peer, l.out);
                 I::Canon { peer, src: s, dst: c }
             }
             72..=75 if streams && !env.maps.is_empty() => {
